@@ -117,7 +117,8 @@ PROPS = {
         "level_text": "Online per-operation monitor + offline pairing automaton + derived-quantity checks over seeded schedules, with the wrapped recorder's StartRecording failing at random calls and at every call index 0..11.",
         "level_note": "min-secs+preview-secs >= 1 (refill > 0) as the property requires.",
         "technique": "online per-operation monitor + pairing automaton on the wrapped recorder",
-        "jobs": [dict(TH_JOB)],
+        "jobs": [dict(TH_JOB),
+                 {"pkg": "recorder-main", "test": "TestVerif_Daemon", "daemon": True, "shards": (1, 1), "timeout": (300, 600)}],
     },
     "C07": {
         "title": "Motion is reported exactly per the configured thresholds (fixed threshold)",
@@ -171,7 +172,8 @@ PROPS = {
         "level_text": "Fault enumeration over every hook-indexed crash point of each scenario, with a directory scanner + full decode as the oracle before and after the start-up clean-up.",
         "level_note": "Frames of recordings started in different frames are paced >= 2 ms apart as a real camera does (file names have millisecond resolution); S8 is the one same-frame collision production can produce.",
         "technique": "crash-point enumeration with self-SIGKILL at hooks + directory/decoder oracle",
-        "jobs": [{"pkg": "recorder-main-dephooks", "test": "TestVerif_C10", "shards": (16, 16), "timeout": (600, 3000), "require": ["crash_points", "complete_recordings_seen", "hook_scans_in_children", "crash_points_inside_cptv_writer", "same_frame_start_repetitions"]}],
+        "jobs": [{"pkg": "recorder-main-dephooks", "test": "TestVerif_C10", "shards": (16, 16), "timeout": (600, 3000), "require": ["crash_points", "complete_recordings_seen", "hook_scans_in_children", "crash_points_inside_cptv_writer", "same_frame_start_repetitions"]},
+                 {"pkg": "recorder-main", "test": "TestVerif_Daemon", "daemon": True, "shards": (1, 1), "timeout": (300, 600)}],
     },
     "C11": {
         "title": "Finished files decode to exactly the recorded frames, metadata and settings",
@@ -217,7 +219,8 @@ PROPS = {
         "level_text": "Independent raw decoders + sink-trace scan + paired-execution comparator, exhaustive over zero positions for small frames and sampled over streams.",
         "level_note": "Writes to a closed continuous sink after a bad frame were C12's finding F4 (fixed).",
         "technique": "independent-decoder differential + sink-trace scan + paired-execution comparator",
-        "jobs": [{"pkg": "recorder-main", "test": "TestVerif_C13", "shards": (16, 16), "timeout": (300, 2400), "require": ["bad_frames_rejected", "valid_frames_accepted", "streams", "recordings_ended_by_bad_frame", "motion_frames", "valid_frames_compared"]}],
+        "jobs": [{"pkg": "recorder-main", "test": "TestVerif_C13", "shards": (16, 16), "timeout": (300, 2400), "require": ["bad_frames_rejected", "valid_frames_accepted", "streams", "recordings_ended_by_bad_frame", "motion_frames", "valid_frames_compared"]},
+                 {"pkg": "recorder-main", "test": "TestVerif_Daemon", "daemon": True, "shards": (1, 1), "timeout": (300, 600)}],
     },
     "C14": {
         "title": "Frame socket: header round-trips, frames delivered once, 'clear' resets",
